@@ -27,7 +27,7 @@ RULE = ("function level: every string of length <= N over the 12-symbol alphabet
 ASSUMPTIONS = ["protected spans of the option-off output are located by regexes for code spans, fenced code, template tags, HTML comments and "
                "tags, URLs, link destinations/titles in parentheses and backslash-escaped quotes"]
 
-SYM = ("'", '"', "a", "s", " ", ".", "\n", "{%", "%}", "—", ")", "\\")
+SYM = ("'", '"', "a", "s", " ", ".", "\n", "{%", "%}", "—", ")", "\\", "9")   # (the digit was appended later: '90s, 5'10")
 SINGLE = "‘’"
 DOUBLE = "“”"
 
